@@ -472,6 +472,105 @@ fn run(ctx: &mut Ctx) {
             },
         );
     }
+    // ---------------- family 3b: include graphs across directories, every edge written through `..`
+    // files a/f0, b/f1, a/f2; per file 0..=k include lines; each include names its target either as
+    // `../<dir>/<file>` or redundantly as `../<own dir>/../<dir>/<file>` (same file, different spelling), so a
+    // loader that recognises a revisited file by the path as written (not by the file it denotes) is exposed.
+    {
+        const DIRS: [&str; 3] = ["a", "b", "a"];
+        let spell = |from: usize, to: usize, style: usize| -> String {
+            match style {
+                0 => format!("../{}/f{}.ledger", DIRS[to], to),
+                _ => format!("../{}/../{}/f{}.ledger", DIRS[from], DIRS[to], to),
+            }
+        };
+        // an include option of file i: list of (target, style); targets 0..3, styles 0..2 -> 6 single edges, or none, or two edges
+        let mut opts_of: Vec<Vec<(usize, usize)>> = vec![vec![]];
+        for t in 0..3 {
+            for st in 0..2 {
+                opts_of.push(vec![(t, st)]);
+            }
+        }
+        if ctx.tier == Tier::Thorough {
+            for t1 in 0..3 {
+                for t2 in 0..3 {
+                    for st in 0..2 {
+                        opts_of.push(vec![(t1, st), (t2, 1 - st)]);
+                    }
+                }
+            }
+        }
+        let k = opts_of.len();
+        ctx.fact("include_graphs_across_directories", (k * k * k) as u64);
+        for a in 0..k {
+            for b in 0..k {
+                for c in 0..k {
+                    if !ctx.next_is_mine() {
+                        ctx.skip_cases(1);
+                        continue;
+                    }
+                    let sel = [&opts_of[a], &opts_of[b], &opts_of[c]];
+                    let files: Vec<(String, String)> = (0..3)
+                        .map(|i| {
+                            let mut t = format!("2024/01/0{} t{}\n  A{}  1 USD\n  B\n\n", i + 1, i, i);
+                            for (to, st) in sel[i].iter() {
+                                t.push_str(&format!("include {}\n", spell(i, *to, *st)));
+                            }
+                            (format!("/v/{}/f{}.ledger", DIRS[i], i), t)
+                        })
+                        .collect();
+                    // cycle reachable from f0?
+                    let mut cyc = false;
+                    fn dfs(i: usize, stack: &mut Vec<usize>, sel: &[&Vec<(usize, usize)>; 3], cyc: &mut bool) {
+                        if stack.contains(&i) {
+                            *cyc = true;
+                            return;
+                        }
+                        stack.push(i);
+                        for (to, _) in sel[i].iter() {
+                            dfs(*to, stack, sel, cyc);
+                            if *cyc {
+                                break;
+                            }
+                        }
+                        stack.pop();
+                    }
+                    dfs(0, &mut vec![], &sel, &mut cyc);
+                    let tick_ctx: *const Ctx = ctx;
+                    let tick = move || unsafe { (*tick_ctx).tick() };
+                    let gdir = dir.join(format!("dgraph-{}", ctx.shard));
+                    ctx.case(
+                        || format!("[real file system, real binary: balance a/f0.ledger]\n{}", files.iter().map(|(p, t)| format!("== {} ==\n{}", p, t)).collect::<Vec<_>>().join("\n")),
+                        || {
+                            // (the in-memory FakeFileSystem does not resolve `..` when matching include patterns, so this
+                            // family needs real directories)
+                            let _ = std::fs::remove_dir_all(&gdir);
+                            for (p, t) in &files {
+                                let f = gdir.join(p.trim_start_matches("/v/"));
+                                std::fs::create_dir_all(f.parent().unwrap()).expect("mkdir");
+                                std::fs::write(&f, t).expect("write");
+                            }
+                            let root = gdir.join("a/f0.ledger");
+                            let (kind, _o, e) = run_binary(&["balance", &root.to_string_lossy()], Duration::from_secs(15), &tick);
+                            if let Some(v) = judge_binary(&kind, e) {
+                                return match v.verdict {
+                                    crate::fw::Verdict::Violation { sig, detail } => Outcome::violation(format!("{}/include-graph-across-directories/{}", sig, if cyc { "cyclic" } else { "acyclic" }), detail),
+                                    _ => v,
+                                };
+                            }
+                            if cyc && kind == "exit-0" {
+                                return Outcome::violation("include-cycle-accepted/across-directories", "the include graph is cyclic but loading succeeded (it cannot have terminated faithfully)");
+                            }
+                            if !cyc && kind != "exit-0" {
+                                return Outcome::violation("acyclic-include-graph-rejected/across-directories", "every include names an existing file and there is no cycle, but okane balance failed");
+                            }
+                            Outcome::pass(format!("include-graph-dirs/{}/{}", if cyc { "cyclic" } else { "acyclic" }, kind))
+                        },
+                    );
+                }
+            }
+        }
+    }
     // real file system through the real binary: the 1- and 2-file graphs (thorough) / a slice (quick)
     let real_graphs: Vec<(usize, Vec<usize>)> = graphs.iter().filter(|(n, o)| *n == 1 || (*n == 2 && (ctx.tier == Tier::Thorough || (o[0] * 31 + o[1]) % 23 == 0))).cloned().collect();
     for (n, opts) in &real_graphs {
@@ -619,6 +718,49 @@ fn run(ctx: &mut Ctx) {
                         })
                     },
                 );
+            }
+        }
+    }
+    // ---------------- residues that vanish only after rounding to a declared precision (in-process)
+    // all 2-posting transactions over C01's full alphabet (values 0.005 / -0.015 next to other commodities, zero rates, ...)
+    // under each declared-precision context: process + every conversion must return a value or an error, never panic
+    {
+        let precs: Vec<crate::refledger::Prec> = vec![[("X", 2u32)].into_iter().collect(), [("X", 0u32)].into_iter().collect(), [("X", 2u32), ("Y", 0u32)].into_iter().collect()];
+        for (pi, prec) in precs.iter().enumerate() {
+            let header = crate::refledger::prec_header(prec);
+            for a in alpha.iter() {
+                for b in alpha.iter() {
+                    if !ctx.next_is_mine() {
+                        ctx.skip_cases(1);
+                        continue;
+                    }
+                    let text = format!("{}2024/01/01 z\n{}\n{}\n", header, a.render("P1"), b.render("P2"));
+                    ctx.case(
+                        || text.clone(),
+                        || {
+                            oka::with_ledger(&[(oka::ROOT, text.as_str())], oka::ROOT, None, |r| match r {
+                                Err(e) => {
+                                    if e.rendered.trim().is_empty() && e.chain.is_empty() {
+                                        Outcome::violation("precision/error-without-message", "empty error")
+                                    } else {
+                                        Outcome::pass(format!("precision{}/rejected/{}", pi, e.variant))
+                                    }
+                                }
+                                Ok((l, ctx2)) => {
+                                    let d = oka::date(2024, 2, 1);
+                                    for name in ["X", "Y", "Z"] {
+                                        if let Some(c) = ctx2.commodity(name) {
+                                            for strategy in [ConversionStrategy::Historical, ConversionStrategy::UpToDate { now: d }] {
+                                                let _ = l.balance(ctx2, &BalanceQuery { conversion: Some(Conversion { strategy, target: c }), date_range: DateRange::default() });
+                                            }
+                                        }
+                                    }
+                                    Outcome::pass(format!("precision{}/accepted", pi))
+                                }
+                            })
+                        },
+                    );
+                }
             }
         }
     }
